@@ -76,6 +76,11 @@ theorem release_registered_before_dial :
     Skel.precedes (.call "net.Dial") (.call "backendConn.Close") skel_connection_Handler = true ∧
     Skel.precedes (.call "conn.Close") (.call "connection.DialWebsocket") skel_frontend_main = true := by decide
 
+/-- regenerated fact: the frontend never sets SO_LINGER on a client connection, so when it closes the connection the
+    kernel still delivers what the server had sent before closing (with a zero linger the queued data is dropped
+    and the client sees a reset instead of the data followed by end-of-stream) -/
+theorem frontend_closes_gracefully : bridgeFrontend_setsLinger = false := by decide
+
 /-- regenerated fact: the frontend's websocket dial gives up a handshake that the peer never answers (gorilla's
     DefaultDialer, 45 s, or an explicit HandshakeTimeout / context deadline).  Without a bound, a client whose
     bridge peer accepts the TCP connection and then stalls never observes end-of-stream, and the frontend keeps
